@@ -8,13 +8,16 @@ gzip / bzip2 / xz / ustar and the documented tarfile modes.
 
 Layers (each is a set of obligations generated from the real source on every run):
  (a) byte-level readers of sevenzip.py over an abstract byte stream with a ghost position: _read_bytes,
-     _read_uint8/32/64, _read_number (= 7z NUMBER, bit-vectors, all byte streams); BOUNDED: _read_boolean_vector,
-     _parse_pack_info, _parse_folder, _parse_unpack_info, _parse_substreams_info against the format grammar
-     (small shapes, every stream byte symbolic);
+     _read_uint8/32/64, _read_number (= 7z NUMBER, bit-vectors, all byte streams), _read_boolean_vector (any count) and
+     _parse_pack_info (any number of pack streams, all digest layouts) against the format grammar; BOUNDED (thorough
+     tier): _parse_folder, _parse_unpack_info, _parse_substreams_info (small shapes, every stream byte symbolic);
+     BOUNDED native scope (every run): reference writers x layouts x member sets on the real code, the stand-in for
+     _parse_header / _parse_main_header / _parse_streams_info / _parse_files_info, which are not under contract;
  (b) _build_file_list (any number of files / folders): file i gets its name, attributes and the size of its
      sub-stream; the r-th stream-bearing file goes to the folder k with cum(k) <= r < cum(k) + num_streams(k);
  (c) extractall / _decompress_folder: the bytes handed to the decoder chain of folder k are
-     archive[pack_pos + sum(pack_sizes[:k]) : + pack_sizes[k]], coders applied last-first  (F10 fails here);
+     archive[pack_pos + sum(pack_sizes[:k]) : + pack_sizes[k]], coders applied last-first (F10, fixed); entries with
+     emptyStream + emptyFile are zero-length FILES: not directories, not in the file->folder map, created empty (F25);
  (d) _extract_files_from_folder: member j of a folder is out(k)[off_j : off_j + size_j], off_j = sum of earlier sizes;
  (e) member loops of archive_extractor.py: ZIP / TAR / 7z selection in container order, one dispatch per selected
      member with the member's own bytes, name, base name and `archive!/member` path; _process_archive_entry calls
@@ -24,8 +27,8 @@ Loops over symbolic sequences carry *per-iteration ghost-event invariants*: the 
 iteration i states exactly which events (append / write / yield / map) the iteration produced and with which values;
 `member-loops-run-to-completion` rules out early exits.  The end-to-end statement is the composition of these layers
 (PY-LIST-ORDER for lists built by append); `decode` (lzma), zipfile / tarfile member reads, the file system and the
-member extractors are uninterpreted (Trust).  Recorded known findings: F25, F26, F27 (known_findings.json); F10 has a
-proposed fix (proposed_fixes/C10.diff) and fails on the unfixed tree with a natively replayed witness.
+member extractors are uninterpreted (Trust).  Recorded known findings: F25, F26, F27 (known_findings.json) with
+proposed fixes for F25 (proposed_fixes/C10_F25.diff) and F27 (C10_F27.diff); F10 is fixed in /repo.
 """
 import ast
 
@@ -2571,7 +2574,10 @@ ASSUMPTIONS = [
     "the end-to-end statement (read_archive == direct extraction per member, in order) is the COMPOSITION of the layer contracts "
     "(a)-(f); the composition itself is argued in the pack's docstring, not discharged by the solver",
     "a ZIP/TAR/7z member above max_memory_size / MAX_ARCHIVE_FILE_SIZE is skipped (C12's limits); members are distinct names",
-    "_parse_files_info / _parse_header / _parse_main_header / _parse_streams_info are NOT under contract (native differential replay only)",
+    "_parse_files_info / _parse_header / _parse_main_header / _parse_streams_info are NOT under contract: their stand-in is the BOUNDED "
+    "native-scope obligation (replay/C10.py on the real code at every run)",
+    "NUMPOS / DCNT (positions after i NUMBERs, defined digests among the first i) are primitive-recursive spec functions used through "
+    "instances of their defining equations and two monotonicity lemmas proved by induction",
 ]
 BOUNDED = []
 QUICK_SKIP_BOUNDED = True   # the five BOUNDED header-parser enumerations (60-110 s each) run in the thorough tier only
